@@ -85,7 +85,7 @@ def validate(ck, sessions, part, maxsteps=40000, batch=1500, with_trace=True):
             if ka[0] == "unspec" or kb[0] == "unspec":
                 break
             if ka[0] == "err" and kb[0] == "err":
-                if not (kb[1] in (a["err"], a.get("alt")) or ka[1] in (b["err"], b.get("alt"))) or ka[2] != kb[2]:
+                if not (kb[1] in (a["err"], a.get("alt"), a.get("alt2")) or ka[1] in (b["err"], b.get("alt"))) or ka[2] != kb[2]:
                     verdict = (j, "error class or output differs: semantics %s, compiled code on the intended VM %s" % (ka, kb))
                     break
             elif ka != kb:
